@@ -39,7 +39,7 @@ func init() {
 		Exec:      exec,
 		Required: []string{"forward-ref-history", "forward-ref-indirect-ancestor", "diamond", "redundant-direct", "shadowed-slot", "inherited-initform",
 			"shared-initarg", "two-initargs-one-slot", "redef-direct-subclass", "redef-indirect-subclass", "redef-before-superclass-defined",
-			"warm-dispatch", "accessor-checked", "unbound-slot-checked", "mid-history-precedence"},
+			"warm-dispatch", "accessor-checked", "unbound-slot-checked", "mid-history-precedence", "explicit-nil-initarg"},
 		Bound:    bound,
 		Selftest: selftest,
 	})
@@ -450,6 +450,9 @@ func exec(spec string) (res engine.Result) {
 		val, tr, err := lisp.Run(spec[5:])
 		res.Outcome = val + " trace=" + strings.Join(tr, ",") + " err=" + err.String()
 		return
+	}
+	if strings.HasPrefix(spec, "nilarg|") {
+		return execNilarg(spec)
 	}
 	c, err := parseCase(spec)
 	if err != nil {
